@@ -219,6 +219,39 @@ func malformedConstructible() []*spec.Packet {
 	out = append(out, &spec.Packet{Type: 10, Flags: 2, PacketID: 1})
 	out = append(out, &spec.Packet{Type: 9, PacketID: 1}, &spec.Packet{Type: 11, PacketID: 1})
 	out = append(out, &spec.Packet{Type: 3}) // no topic, no alias
+	// values the round-trip domain excludes but the setters accept: a user
+	// property with an empty key, subscription identifier 0, alone and next
+	// to ordinary ones, in every type that has the field
+	for _, t := range allTypes {
+		if t == 12 || t == 13 {
+			continue
+		}
+		for _, rich := range []bool{false, true} {
+			base := minimalPacket(t)
+			if rich {
+				base = richPacket(t, true)
+			}
+			p := base.Clone()
+			p.Props = append(p.Props, spec.Prop{ID: 0x26, B: nil, V: []byte("v")})
+			out = append(out, p)
+			q := base.Clone()
+			q.Props = append([]spec.Prop{{ID: 0x26, B: nil, V: nil}}, q.Props...)
+			out = append(out, q)
+			if t == 3 {
+				r := base.Clone()
+				r.Props = append(r.Props, spec.Prop{ID: 0x0b, N: 0}, spec.Prop{ID: 0x0b, N: 5}, spec.Prop{ID: 0x0b, N: 0})
+				out = append(out, r)
+			}
+			if t == 1 {
+				w := base.Clone()
+				if w.Will == nil {
+					w.Will = &spec.Will{Topic: []byte("w")}
+				}
+				w.Will.Props = append(w.Will.Props, spec.Prop{ID: 0x26, B: nil, V: []byte("wv")})
+				out = append(out, w)
+			}
+		}
+	}
 	return out
 }
 
@@ -420,13 +453,14 @@ func runC10(x *core.Ctx) {
 				}
 			}
 		}
-		x.Eval("undefined")
-		u := &mq.Undefined{}
-		w := &env.Writer{FailAfter: -1}
-		n, err := u.WriteTo(w)
-		if err == nil || n != 0 || len(w.Calls) != 0 {
-			f := &core.Finding{Class: "undefined-writes", Detail: fmt.Sprintf("Undefined.WriteTo returned n=%d err=%v after %d Write calls", n, err, len(w.Calls))}
-			x.Report(f, func() core.Case { return core.Case{Harness: "c10.undefined"} }, func() *core.Finding { return f })
+		// Undefined: the zero value, and values decoded from type-0 frames
+		// (ReadPacket and UnmarshalBinary, bodies of 0, 3 and 200 bytes)
+		for ui := 0; ui < 7; ui++ {
+			ui := ui
+			x.Eval("undefined")
+			if f := c10Undefined(ui); f != nil {
+				x.Report(f, func() core.Case { return core.Case{Harness: "c10.undefined", Params: map[string]any{"index": ui}} }, func() *core.Finding { return c10Undefined(ui) })
+			}
 		}
 	}
 }
@@ -454,6 +488,43 @@ func c10Rewrite(s subject, ops []sop, init string, path []int) *core.Finding {
 	return c10Success(q, t, decodable, fmt.Sprintf("%s (%s) written once, then [%s], written again", s.Name, init, pathNames(ops, path)))
 }
 
+// c10Undefined: a packet that cannot be serialised returns an error and
+// the writer sees no call - however the value was obtained.
+func c10Undefined(i int) *core.Finding {
+	resetGlobals()
+	var u mq.Packet = &mq.Undefined{}
+	how := "&Undefined{}"
+	bodies := [][]byte{nil, {1, 2, 3}, bytes.Repeat([]byte{0xaa}, 200)}
+	switch {
+	case i >= 1 && i <= 3:
+		fr := reframe(0x00, bodies[i-1])
+		p, err, res := readPacket(bytes.NewReader(fr), stepBudget(len(fr)))
+		if err != nil || p == nil || res.Panic != "" {
+			return nil
+		}
+		u, how = p, fmt.Sprintf("ReadPacket(% x)", clipBytes(fr))
+	case i >= 4:
+		v := &mq.Undefined{}
+		if err := v.UnmarshalBinary(append([]byte(nil), bodies[i-4]...)); err != nil {
+			return nil
+		}
+		u, how = v, fmt.Sprintf("UnmarshalBinary(%d bytes)", len(bodies[i-4]))
+	}
+	if _, ok := u.(*mq.Undefined); !ok {
+		return nil
+	}
+	w := &env.Writer{FailAfter: -1}
+	var n int64
+	var err error
+	if res := guarded(0, func() { n, err = u.WriteTo(w) }); res.Panic != "" {
+		return &core.Finding{Class: "undefined-writes/panic", Detail: how + ": " + res.Panic}
+	}
+	if err == nil || n != 0 || len(w.Calls) != 0 {
+		return &core.Finding{Class: "undefined-writes", Detail: fmt.Sprintf("Undefined from %s: WriteTo returned n=%d err=%v after %d Write calls (% x)", how, n, err, len(w.Calls), clipBytes(w.Buf))}
+	}
+	return nil
+}
+
 // c10Decoded: decode a valid frame, write the decoded packet.
 func c10Decoded(v VFrame) *core.Finding {
 	resetGlobals()
@@ -474,6 +545,8 @@ func replayC10(c core.Case) *core.Finding {
 		}
 		c11Modify(q, t.Mod)
 		return c10Success(q, 1, false, t.describe())
+	case "c10.undefined":
+		return c10Undefined(paramInt(c.Params, "index"))
 	case "c10.decoded":
 		b := unhex(c.Frame)
 		return c10Decoded(VFrame{B: b, Name: "replayed"})
